@@ -223,6 +223,7 @@ def run_jobs(jobs, nworkers=None):
     """Run jobs on real processes (one zygote worker per core)."""
     for i, j in enumerate(jobs):
         j["id"] = i + 1
+        j.setdefault("variant", "form" if i % 3 else "expr")     # every third execution goes through compile_expressions
     nworkers = max(1, min(nworkers or NCPU, len(jobs)))
     d = scratch("jitjobs")
     chunks = [jobs[i::nworkers] for i in range(nworkers)]
